@@ -777,3 +777,194 @@ Theorem step_stable_both : forall relaxed limit, req_max_method + 2 <= limit ->
 Proof.
   intros relaxed limit H. split; [exact (step_stable_done relaxed limit H)|exact (step_stable_bad relaxed limit H)].
 Qed.
+
+(* ================================================================== *)
+(* C62: size limits                                                     *)
+(* ================================================================== *)
+
+(* --- a parser that asks for more data holds fewer than limit bytes --- *)
+Lemma grab_mime_more_len limit s b s1 b1 :
+  grab_mime limit s b = (false, s1, b1) -> r_stage s1 <> SDone -> r_stage s <> SDone -> lenN b1 < limit.
+Proof.
+  unfold grab_mime. destruct (r_http s && (r_major s =? 1)).
+  - destruct (headers_end b) as [e fold]. destruct (e =? 0).
+    + destruct (limit <=? lenN b + first_line_size s) eqn:L; intros H; inversion H; subst s1 b1.
+      * cbn. congruence.
+      * intros _ _. lia.
+    + destruct (limit <=? first_line_size s + e); intros H; inversion H; subst s1 b1. cbn. congruence.
+  - intros H; inversion H.
+Qed.
+
+Section Limits.
+  Variables (relaxed : bool) (limit : N).
+  Hypothesis Hlimit : req_max_method + 2 <= limit.
+
+  Lemma more_below_limit s b s' keep : inv s ->
+    step relaxed limit s b = More s' keep -> lenN keep < limit.
+  Proof.
+    intros Hi H. rewrite step_classify in H.
+    assert (Hm : forall s0 b0, r_stage s0 = SMime -> inv s0 ->
+                 classify (do_mime limit s0 b0) = More s' keep -> lenN keep < limit).
+    { intros s0 b0 Hst0 Hi0. unfold do_mime. rewrite Hst0. cbn [stage_eqb].
+      destruct (grab_mime limit s0 b0) as [[ok s1] b1] eqn:G. destruct ok.
+      - pose proof (grab_mime_true_stage _ _ _ _ _ G) as Hd. unfold classify.
+        rewrite needs_more_stage, Hd. cbn. intros K; inversion K.
+      - destruct (grab_mime_false _ _ _ _ _ G) as [[Hs1 _]|[Hs1 Hb1]].
+        + subst s1. unfold classify. cbn.
+          destruct (rq_sc_header_too_large =? rq_sc_header_too_large); intros K; inversion K.
+        + subst s1 b1. unfold classify.
+          assert (r_code s0 =? rq_sc_header_too_large = false) as -> by (unfold inv in Hi0; lia).
+          rewrite needs_more_stage, Hst0. cbn. intros K; inversion K; subst s' keep.
+          eapply grab_mime_more_len; [exact G| |]; rewrite Hst0; discriminate. }
+    assert (Hfst : forall s0 b0, r_stage s0 = SFirst ->
+                 classify (do_first relaxed limit s0 b0) = More s' keep -> lenN keep < limit).
+    { intros s0 b0 Hst0. unfold do_first. rewrite Hst0. cbn [stage_eqb].
+      destruct (first_line relaxed limit s0 b0) as [[ret s1] b1] eqn:FL. destruct ret.
+      - apply Hm; [reflexivity|]. unfold inv. cbn.
+        rewrite (first_line_ok_code _ _ _ _ _ _ FL). exact okay_not_too_large.
+      - unfold first_line in FL.
+        destruct (match find_line b0 with
+                  | Some (line, rest) => if limit <=? lenN line then None else Some (line, rest)
+                  | None => None end) as [[line rest]|].
+        + destruct (parse_line relaxed s0 line) as [sx [|]]; inversion FL.
+        + destruct (limit <=? lenN b0) eqn:L; inversion FL; subst s1 b1.
+          unfold do_mime. rewrite Hst0. cbn [stage_eqb]. unfold classify. rewrite needs_more_stage, Hst0. cbn.
+          intros K; inversion K; subst. lia.
+      - unfold classify. cbn. intros K; inversion K. }
+    destruct (r_stage s) eqn:Hst.
+    - rewrite do_parse_none in H by exact Hst. unfold none_tail in H.
+      destruct (relaxed && list_eqb (none_view relaxed b) [13]) eqn:E.
+      + unfold classify in H. rewrite needs_more_stage, Hst in H. cbn in H. inversion H; subst.
+        apply andb_prop in E. destruct E as [_ E]. apply list_eqb_13 in E. rewrite E.
+        cbn [lenN]. revert Hlimit. vm_compute (req_max_method + 2). lia.
+      + destruct (none_view relaxed b) as [|c r] eqn:V.
+        * unfold classify in H. rewrite needs_more_stage, Hst in H. cbn in H. inversion H; subst.
+          cbn [lenN]. lia.
+        * eapply Hfst; [|exact H]. reflexivity.
+    - rewrite do_parse_first in H by exact Hst. eapply Hfst; eassumption.
+    - rewrite do_parse_mime in H by exact Hst. eapply Hm; eassumption.
+    - rewrite do_parse_done in H by exact Hst. unfold classify in H.
+      rewrite needs_more_stage, Hst in H. cbn in H. inversion H.
+  Qed.
+End Limits.
+
+(* --- an accepted request is within the limits --- *)
+Definition is_crlf (c : N) : bool := (c =? 13) || (c =? 10).
+
+Lemma skip_garbage_split b : exists lead, b = lead ++ skip_garbage b /\ forallb is_crlf lead = true.
+Proof.
+  induction b as [|c r IH].
+  - exists []. split; reflexivity.
+  - cbn [skip_garbage]. destruct (c =? 10) eqn:E10.
+    + destruct IH as (lead & Hb & Hl). exists (c :: lead). split; [cbn [app]; congruence|].
+      cbn [forallb]. unfold is_crlf at 1. rewrite E10, Hl. destruct (c =? 13); reflexivity.
+    + destruct (c =? 13) eqn:E13; [|exists []; split; reflexivity].
+      destruct r as [|d r']; [exists []; split; reflexivity|].
+      destruct (d =? 10) eqn:D10; [|exists []; split; reflexivity].
+      destruct IH as (lead & Hb & Hl). exists (c :: lead). split; [cbn [app]; congruence|].
+      cbn [forallb]. unfold is_crlf at 1. rewrite E13, Hl. reflexivity.
+Qed.
+
+Lemma find_line_split b line rest : fits b -> find_line b = Some (line, rest) ->
+  b = line ++ 10 :: rest /\ forallb (fun c => negb (c =? 10)) line = true.
+Proof.
+  intros Hf H. rewrite find_line_spec in H by exact Hf.
+  pose proof (span_app not_lf b) as Happ. pose proof (span_all not_lf b) as Hall.
+  pose proof (span_stop not_lf b) as Hstop.
+  destruct (span not_lf b) as [l r]. cbn [fst snd] in *.
+  destruct l as [|l0 l]; [discriminate|]. destruct r as [|c r]; [discriminate|].
+  inversion H; subst line rest. rewrite not_lf_spec in Hstop.
+  assert (c = 10) by (destruct (c =? 10) eqn:E; [apply N.eqb_eq in E; exact E|discriminate]). subst c.
+  split; [symmetry; exact Happ|].
+  rewrite forallb_forall in *. intros y Hy. rewrite <- not_lf_spec. apply Hall. exact Hy.
+Qed.
+
+(* what "within the limits" means for an accepted request, stated on the raw input bytes:
+   input = tolerated empty lines ++ request line ++ LF ++ header block ++ unconsumed rest *)
+Definition accepted_within (limit : N) (input : bytes) (f : fields) (rest : bytes) : Prop :=
+  exists lead line block,
+    input = lead ++ line ++ [10] ++ block ++ rest /\
+    forallb is_crlf lead = true /\
+    forallb (fun c => negb (c =? 10)) line = true /\
+    lenN line < limit /\
+    (if f_http f && (f_major f =? 1)
+     then lenN (f_mimg f) + lenN (f_uri f) + req_fls_extra + lenN block < limit
+     else block = []).
+
+Lemma grab_mime_true_split limit s b s1 b1 :
+  grab_mime limit s b = (true, s1, b1) ->
+  exists block, b = block ++ b1 /\
+    r_mimg s1 = r_mimg s /\ r_uri s1 = r_uri s /\ r_http s1 = r_http s /\ r_major s1 = r_major s /\
+    (if r_http s && (r_major s =? 1) then first_line_size s + lenN block < limit else block = []).
+Proof.
+  unfold grab_mime. destruct (r_http s && (r_major s =? 1)).
+  - destruct (headers_end b) as [e fold] eqn:HE. destruct (e =? 0) eqn:E0.
+    + destruct (limit <=? lenN b + first_line_size s); intros H; inversion H.
+    + destruct (headers_end_found b [] e fold HE ltac:(lia)) as [_ Hle].
+      destruct (limit <=? first_line_size s + e) eqn:L; intros H; inversion H; subst s1 b1.
+      exists (takeN e b). split; [symmetry; apply takeN_dropN|].
+      cbn. repeat split; try reflexivity. rewrite lenN_takeN. lia.
+  - intros H; inversion H; subst s1 b1. exists []. cbn. repeat split; reflexivity.
+Qed.
+
+Section Accepted.
+  Variables (relaxed : bool) (limit : N).
+
+  Lemma first_accepted_within s b f rest : r_stage s = SFirst -> fits b ->
+    classify (do_first relaxed limit s b) = Done f rest ->
+    exists line block, b = line ++ [10] ++ block ++ rest /\
+      forallb (fun c => negb (c =? 10)) line = true /\ lenN line < limit /\
+      (if f_http f && (f_major f =? 1)
+       then lenN (f_mimg f) + lenN (f_uri f) + req_fls_extra + lenN block < limit else block = []).
+  Proof.
+    intros Hst Hf. unfold do_first. rewrite Hst. cbn [stage_eqb].
+    destruct (first_line relaxed limit s b) as [[ret s1] b1] eqn:FL. destruct ret.
+    - unfold first_line in FL.
+      destruct (find_line b) as [[line r]|] eqn:FLn.
+      + destruct (limit <=? lenN line) eqn:LL.
+        * destruct (limit <=? lenN b); inversion FL.
+        * destruct (parse_line relaxed s line) as [sx [|]]; inversion FL; subst sx b1.
+          destruct (find_line_split _ _ _ Hf FLn) as [Hb Hline].
+          unfold do_mime. cbn [r_stage set_stage stage_eqb].
+          destruct (grab_mime limit (set_stage s1 SMime) r) as [[ok s2] b2] eqn:G. destruct ok.
+          -- pose proof (grab_mime_true_stage _ _ _ _ _ G) as Hd.
+             destruct (grab_mime_true_split _ _ _ _ _ G) as (block & Hr & Hm & Hu & Hh & Hma & Hlim).
+             unfold classify. rewrite !needs_more_stage, Hd. cbn [stage_eqb negb].
+             intros K; inversion K; subst f rest.
+             exists line, block. split; [rewrite Hb, Hr; reflexivity|].
+             split; [exact Hline|]. split; [lia|].
+             cbn [f_http f_major f_mimg f_uri fields_of]. rewrite Hh, Hma, Hm, Hu.
+             cbn [r_http r_major r_mimg r_uri set_stage] in *. unfold first_line_size in Hlim.
+             cbn [r_mimg r_uri set_stage] in Hlim. exact Hlim.
+          -- unfold classify.
+             destruct (needs_more (if r_code s2 =? rq_sc_header_too_large then set_code s2 rq_sc_fields_too_large else s2));
+               intros K; inversion K.
+      + destruct (limit <=? lenN b); inversion FL.
+    - destruct (first_line_more _ _ _ _ _ _ FL) as [-> ->].
+      unfold do_mime. rewrite Hst. cbn [stage_eqb]. unfold classify. rewrite needs_more_stage, Hst. cbn.
+      intros K; inversion K.
+    - unfold classify. cbn. intros K; inversion K.
+  Qed.
+
+  Theorem accepted_request_within_limits input f rest : fits input ->
+    parse_whole relaxed limit input = Done f rest -> accepted_within limit input f rest.
+  Proof.
+    intros Hf. unfold parse_whole. rewrite step_classify, do_parse_none by reflexivity.
+    unfold none_tail.
+    destruct (relaxed && list_eqb (none_view relaxed input) [13]).
+    - unfold classify. cbn. intros K; inversion K.
+    - destruct (none_view relaxed input) as [|c r] eqn:V.
+      + unfold classify. cbn. intros K; inversion K.
+      + intros K.
+        assert (Hsplit : exists lead, input = lead ++ (c :: r) /\ forallb is_crlf lead = true).
+        { unfold none_view in V. destruct relaxed.
+          - destruct (skip_garbage_split input) as (lead & Hb & Hl). rewrite V in Hb. eauto.
+          - exists []. split; [cbn [app]; congruence|reflexivity]. }
+        destruct Hsplit as (lead & Hin & Hlead).
+        assert (Hf' : fits (c :: r)).
+        { unfold fits in *. rewrite Hin, lenN_app in Hf. lia. }
+        destruct (first_accepted_within (set_stage rst0 SFirst) (c :: r) f rest eq_refl Hf' K)
+          as (line & block & Hb & Hline & Hlen & Hlim).
+        exists lead, line, block. split; [rewrite Hin, Hb; reflexivity|]. auto.
+  Qed.
+End Accepted.
